@@ -203,6 +203,10 @@ func (w *World) BuildContent(author int, fc FContent) (*aclrecordproto.AclConten
 			anyone = !anyone // name an invite of the other kind
 		}
 		id := pickStr(sortedInviteIds(st, anyone), fc.Ref, "no-such-invite")
+		if fc.Ref >= 1000 && len(w.Invites) > 0 {
+			// the invite created most recently (of whatever kind), whose key the harness holds
+			id = w.Invites[len(w.Invites)-1].Id
+		}
 		who := a
 		if fc.Variant%7 == 6 {
 			who = t // claim somebody else's identity
